@@ -193,6 +193,10 @@ func genExt(r *Rng, kind string, allowKeyDerived bool) ExtSpec {
 						un := map[string]any{"organization": "Org " + fmt.Sprint(r.Intn(9)), "numbers": []int{r.Intn(9), r.Intn(99)}}
 						if r.Bool() {
 							un["text"] = "notice " + fmt.Sprint(r.Intn(99))
+							if r.Chance(1, 5) {
+								// DisplayText is limited to 200 characters by RFC 5280; gopki writes what it is given
+								un["text"] = strings.Repeat("long notice text ", r.Range(12, 30)) + fmt.Sprint(r.Intn(99))
+							}
 						}
 						q = append(q, map[string]any{"userNotice": un})
 					}
